@@ -256,6 +256,10 @@ def finish(res, checker_cmd):
             res.known.append(kf.get("id", desc))
             continue
         nviol += 1
+        replay.setdefault("seed", seed())
+        replay.setdefault("tier", res.tier)
+        replay.setdefault("replay_how", f"VERIF_SEED={seed()} ./check {res.prop} --tier {res.tier} regenerates this case deterministically; "
+                          f"./check {res.prop} --replay <this file> re-runs that and reports whether the same failing input fails again")
         path = write_replay(res.prop, f"violation_{nviol}", replay)
         suffix = "" if replay.get("failing_input") is not None else " no-failing-input-found"
         print(f"VIOLATION property={res.prop} replay={os.path.relpath(path, VERIF)}{suffix}")
@@ -339,3 +343,17 @@ def lean_phase(res, prop, gen_groups, targets, extra_modules=()):
         res.tie_broken.append("forbidden token: " + h)
         ok = False
     return ok
+
+
+def generic_replay(mod, data):
+    """re-run the check with the recorded seed / tier and report whether the recorded failing input fails again"""
+    os.environ["VERIF_SEED"] = str(data.get("seed", 0))
+    res = Result(mod.PROP, data.get("tier", "quick"))
+    mod.run(res.tier, res)
+    want = data.get("failing_input")
+    for desc, rp in res.violations:
+        if rp.get("failing_input") == want or (want is None and rp.get("failing_input") is None):
+            print(f"REPRODUCED property={mod.PROP}: {desc[:300]}")
+            return 1
+    print(f"not reproduced: property={mod.PROP} (the recorded input no longer fails; {len(res.violations)} other violations)")
+    return 0
